@@ -712,3 +712,17 @@ Print Assumptions dup_keys_spec.
 Print Assumptions entry_block_after_acts.
 Print Assumptions split_raw_dup_ok.
 Print Assumptions split_dup_ok.
+
+(* ---- incremental parsing: adding to an existing library is adding to the concatenated block list *)
+Lemma lib_add_all_app : forall a b l, lib_add_all (a ++ b) l = lib_add_all b (lib_add_all a l).
+Proof. intros a b l. unfold lib_add_all. apply fold_left_app. Qed.
+
+Lemma split_into_flag_all : forall prev t bs, split_raw t = Blocks bs ->
+  split_into prev t = Blocks (flag_all [] (prev ++ bs)).
+Proof.
+  intros prev t bs H. unfold split_into. rewrite H. f_equal.
+  rewrite <- rebuild_flag_all. unfold rebuild, lib_of. now rewrite lib_add_all_app.
+Qed.
+
+Lemma split_into_nil : forall t, split_into [] t = split t.
+Proof. intros t. unfold split_into, split, rebuild, lib_of. reflexivity. Qed.
